@@ -2,5 +2,5 @@
 # benign.sh [props...]: run the quick checks against every behaviour-preserving change kept under seeded/benign (none may raise an alarm).
 cd /verif
 for d in seeded/benign/*/; do
-  tools/evalall.sh ${d%/} "$@" 2>&1 | grep -a -E '^==|rc=[1-9]|VIOLATION|key:' | cut -c1-300
+  tools/evalall.sh /verif/${d%/} "$@" 2>&1 | grep -a -E '^==|rc=[1-9]|VIOLATION|key:' | cut -c1-300
 done
